@@ -104,23 +104,31 @@ def missing_edges(sx, B):
 
 @condition("C10.warnings",
            anchors=["polyply.src.gen_itp:gen_params", "polyply.src.graph_utils:find_missing_edges"],
-           rejects=(), selector_only=True, must_cover=["warned", "silent", "json ring", "json star"],
+           rejects=(), selector_only=True, must_cover=["warned", "silent", "json ring", "json star", "explicit link"],
            outside=["sequences longer than the bound"],
            bounds={"quick": dict(nmax=4), "thorough": dict(nmax=5)},
            budget={"quick": 200, "thorough": 900})
 def warnings_(sx, B):
     """Real gen_params on generated input files (-seq, or a .json residue graph that is a ring or a star, over two residue types;
     links only between some name pairs): the captured missing-link warnings name exactly the connected residue pairs that have no
-    bond/constraint between them in the written .itp - also when the atoms stay connected around a ring."""
+    bond/constraint between them in the written .itp - also when the atoms stay connected around a ring, and also when the joining
+    bond or constraint comes from an explicit (by_atom_id) link."""
     shape = sx.sel("input", ["seq", "json ring", "json star"])
     n = int(sx.int("n", 2 if shape == "seq" else 3, B["nmax"]))
     names = [sx.sel("res%d" % i, ["A", "B"]) for i in range(n)]
+    explicit = sx.sel("explicit_link_1_2", ["none", "bonds", "constraints"])
     edges = {"seq": [(i, i + 1) for i in range(n - 1)], "json ring": [(i, (i + 1) % n) for i in range(n)],
              "json star": [(0, i) for i in range(1, n)]}[shape]
     d = tempfile.mkdtemp(prefix="pverif_", dir=os.environ.get("TMPDIR"))
     try:
         ffp = Path(d) / "in.ff"
-        ffp.write_text(FF)
+        fftext = FF
+        if explicit != "none":
+            # an explicit link (atoms addressed by their number in the final molecule) between the backbone atoms of residues 1 and 2
+            second_bb = 1 + (2 if names[0] == "A" else 1)
+            fftext += "[ link ]\n[ molmeta ]\nby_atom_id true\n[ %s ]\n1 %d 1 0.5%s\n" % (explicit, second_bb, " 500" if explicit == "bonds" else "")
+            sx.cover("explicit link")
+        ffp.write_text(fftext)
         out = Path(d) / "out.itp"
         kw = {}
         if shape == "seq":
